@@ -173,6 +173,25 @@ def _buf16(x):          # a zero-dimensional view of a buffer entry (index with 
     return b * v + u * x
 
 
+def _buf17(x):          # the right-hand side of an in-place write is an overlapping view of the written buffer (a shift, a flip)
+    y = A.zeros(4, dtype=x)
+    y[:3] = x * x
+    y[3] = x[0] * x[2]
+    y[1:] = y[:-1]                       # shift by one
+    z = A.zeros(3, dtype=x)
+    z[...] = A.sin(x) + x
+    z[...] = z[::-1]                     # flip in place
+    return A.sum(y * np.array([1.0, -2.0, 0.5, 3.0])) + z * x
+
+
+def _buf18(x):          # a row with a leading axis of length one is stored into one slot of a block (NumPy accepts b[i] = r with r of shape (1, n))
+    B = A.zeros((2, 3), dtype=x)
+    r = A.reshape(x * x, (1, 3))
+    B[0] = r
+    B[1] = A.reshape(A.exp(0.3 * x), (1, 3)) * 2.0
+    return A.sum(B * np.array([[1.0, 2.0, -1.0], [0.5, -0.5, 3.0]]), axis=0) + x
+
+
 def _buf3(x):           # 2-D buffer, slices, column overwritten from other columns
     B = A.zeros((2, 3), dtype=x)
     B[0, :] = x
@@ -286,6 +305,12 @@ def catalogue():
     add('transpose:of_vector', lambda x: x.T * x + A.transpose(A.sin(x)), [(V, 'R')], ['index'])
     add('transpose:of_vector_intermediate', lambda x, B: A.dot(A.dot(B, x).T, B) + x.T, [(V, 'R'), (M, 'R')], ['index', 'binary'])
     add('transpose:of_scalar', lambda x: A.sum(x * x).T * x + (x[0] * x[1]).T, [(V, 'R')], ['index'])
+    # trace of tall and wide matrices, tile with a NumPy integer count
+    add('trace:of_tall_matrix', lambda x: A.trace(A.reshape(A.tile(x, 2), (3, 2)) * np.arange(1., 7.).reshape(3, 2)) * x, [(V, 'R')], ['reduction', 'index'])
+    add('trace:of_wide_matrix', lambda x: A.trace(A.reshape(A.tile(x, np.int64(2)), (2, 3))) + x, [(V, 'R')], ['reduction', 'index'])
+    # real / imag of real-valued intermediates that have other consumers
+    add('cplx:real_of_real_value_used_again', lambda x: (lambda u: 3.0 * A.real(u) + u * u)(A.sin(x)), [(V, 'R')], [])
+    add('cplx:imag_of_real_value', lambda x: (lambda u: A.imag(u) + u * u)(A.exp(0.3 * x)), [(V, 'R')], [])
     add('transpose:of_product', lambda X: A.transpose(X * X) * np.arange(1., 7.).reshape(3, 2), [((2, 3), 'R')], ['index'])
     # --- buffers
     add('buffer:write_once', _buf1, [(V, 'R')], ['buffer'])
@@ -302,6 +327,8 @@ def catalogue():
     add('buffer:augmented_assignment_seen_through_view', _buf14, [(V, 'R')], ['buffer', 'overwrite', 'augmented'])
     add('buffer:scratch_reused_after_result', _buf15, [(V, 'R')], ['buffer', 'overwrite'])
     add('buffer:zero_dimensional_views', _buf16, [(V, 'R')], ['buffer', 'overwrite'])
+    add('buffer:overlapping_view_on_the_right', _buf17, [(V, 'R')], ['buffer', 'overwrite'])
+    add('buffer:row_with_leading_unit_axis_into_slot', _buf18, [(V, 'R')], ['buffer', 'overwrite'])
     add('buffer:constant_overwrites_active_entry', _buf6, [(V, 'R')], ['buffer', 'overwrite', 'const'])
     add('buffer:constant_array_overwrites_slice', _buf7, [(V, 'R')], ['buffer', 'overwrite', 'const'])
     # --- reductions
@@ -461,6 +488,10 @@ def catalogue():
                   ('cos', lambda z: A.cos(0.3 * z)), ('square', lambda z: A.square(z)), ('reciprocal', lambda z: A.reciprocal(z + 9.0)), ('pow2.5', lambda z: (z + 9.0) ** 2.5),
                   ('pow3', lambda z: z ** 3), ('div', lambda z: z / (z + 9.0)), ('tan', lambda z: A.tan(0.1 * z)), ('expm1', lambda z: A.expm1(0.2 * z)), ('log1p', lambda z: A.log1p(0.1 * z))]:
         add('fft:%s_of_spectrum' % nm, (lambda g: lambda x: A.real(A.fft.ifft(g(A.fft.fft(x)))) + A.imag(g(A.fft.fft(x))))(g), [((4,), 'small')], ['fft', 'complex-intermediate'])
+    # magnitude of a complex intermediate: |z(t)| = sqrt(z conj z), real-valued and smooth away from z_0 = 0
+    add('fft:magnitude_of_spectrum', lambda x: A.absolute(A.fft.fft(x) + 5.0), [((4,), 'unit')], ['fft', 'complex-intermediate'])
+    add('fft:magnitude_times_phase_part', lambda x: (lambda z: A.absolute(z) * A.imag(z) + A.real(z) / A.absolute(z))(A.fft.fft(x) + (5.0 + 1.0j)), [((4,), 'unit')],
+        ['fft', 'complex-intermediate'])
     add('fft:matrix_default_axis', lambda X: A.real(A.fft.fft(X)) - A.imag(A.fft.fft(X)), [((3, 2), 'R')], ['fft'])
     add('fft:axis-1', lambda X: A.real(A.fft.fft(X, axis=-1)) + A.imag(A.fft.fft(X, axis=-1)), [((3, 4), 'R')], ['fft', 'kwargs'])
     add('fft:axis1', lambda X: A.real(A.fft.fft(X, axis=1)), [((2, 3), 'R')], ['fft', 'kwargs'])
